@@ -220,6 +220,11 @@ func rwCheck(c *core.Ctx, cases []czCase) []core.Outcome {
 		refs = append(refs, ref{i, "topat0"})
 		send = append(send, fmt.Sprintf("(c05 topat %s %s)", core.SBool(rtl), r1.Sexp))
 		refs = append(refs, ref{i, "topat1"})
+		if !rtl {
+			// (2) the bump-along marker sits where Lean's placeBump puts it
+			send = append(send, fmt.Sprintf("(c05 bump %s)", r1.Sexp))
+			refs = append(refs, ref{i, "bump"})
+		}
 		if r0.Sexp == r1.Sexp {
 			o.Buckets = append(o.Buckets, "trees-equal")
 			continue
@@ -265,6 +270,17 @@ func rwCheck(c *core.Ctx, cases []czCase) []core.Outcome {
 					Summary:  fmt.Sprintf("the denotation of the n-ary tree export differs from gen.FromGoTree: pattern %q opts %d", cs.Pattern, cs.Opts),
 					Expected: want, Got: res[n]}
 			}
+		case "bump":
+			switch res[n] {
+			case "(ok 1 1)":
+				o.Buckets = append(o.Buckets, "bump:marker-placed")
+			case "(ok 1 0)":
+				o.Buckets = append(o.Buckets, "bump:no-site")
+			default:
+				o.Fail = &core.Failure{Kind: "correspondence-break", Key: "Rw:bump-placement",
+					Summary:  fmt.Sprintf("the bump-along marker of the engine's tree is not where Lean's placeBump puts it: pattern %q opts %d", cs.Pattern, cs.Opts),
+					Expected: "placeBump (tree without markers) = tree", Got: res[n] + " " + pp.n1}
+			}
 		case "rwcert":
 			rwCompare(cs, pp, res[n], o)
 		}
@@ -294,15 +310,18 @@ func rwCompare(cs *czCase, pp *rwPrepared, answer string, o *core.Outcome) {
 	if mid == pp.n1 {
 		o.Buckets = append(o.Buckets, "model-tree=engine-tree")
 	}
-	if !llSame {
-		o.Buckets = append(o.Buckets, "loop-loop-coalescing(unproved-case)")
-	}
 	if ok && llSame {
 		if mid == pp.n0 {
 			o.Buckets = append(o.Buckets, "certified:auto-atomic-only")
 		} else {
 			o.Buckets = append(o.Buckets, "certified:with-modelled-rewrites")
 		}
+		return
+	}
+	if ok {
+		// model tree = engine tree (up to certified differences), but a rewrite case fired that the soundness
+		// theorem does not cover (duplicate-collapsing merge / loop·loop … coalescing): tied, not proved
+		o.Buckets = append(o.Buckets, "corresponds:unproved-case")
 		return
 	}
 	rwLog("PATTERN %q opts %d src %s\n  off %s\n  on  %s\n  mid %s\n  ans %s\n", cs.Pattern, cs.Opts, cs.Source, pp.n0, pp.n1, mid, answer)
@@ -332,13 +351,25 @@ func rwCompare(cs *czCase, pp *rwPrepared, answer string, o *core.Outcome) {
 			alarms = append(alarms, czRender(e))
 		}
 	}
-	if other {
-		o.Buckets = append(o.Buckets, "pattern-with-residue")
-		if pp.directed {
-			o.Buckets = append(o.Buckets, "directed-with-residue")
-		}
+	o.Buckets = append(o.Buckets, "pattern-with-residue")
+	// the model's tree and the engine's tree differ (beyond certified auto-atomic / ending differences): search for
+	// an input on which the rewritten and the un-rewritten pattern differ
+	if text, start, f := czSearch(cs); f != nil {
+		cs.Text, cs.Start = text, start
+		f.Key = "Rw:rewrite-changes-result"
+		f.Summary = strings.Replace(f.Summary, "a rewrite the certifier rejects", "a rewrite that is not what the proved model decides", 1)
+		o.Fail = f
+		return
 	}
-	_ = alarms
+	if !pp.directed {
+		// general patterns: nested alternations (flattened in the un-rewritten tree), rewritten places inside loop
+		// bodies in tail position, … — the un-rewritten tree does not determine the engine's result; counted
+		return
+	}
+	_, _ = alarms, other
+	o.Fail = &core.Failure{Kind: "correspondence-break", Key: "Rw:model-differs-from-engine",
+		Summary:  fmt.Sprintf("the engine's rewritten tree is not what Lean's model of the rewrite decisions computes from the un-rewritten tree: pattern %q opts %d", cs.Pattern, cs.Opts),
+		Expected: "model: " + mid, Got: "engine: " + pp.n1 + " cert: " + czRender(a.find("errs"))}
 }
 
 func c05RegisterRw(c *core.Ctx) {
